@@ -183,6 +183,7 @@ def r2(p, rep):
     rep.rule("C01.R2", "table name and primitive name agree", "T-TAB (alias table)", floor=250)
     for fw, cls in backends.classical_ops(p).items():
         ns = backends.local_namespace_aliases(cls)
+        local_prims = backends.local_alias_targets(cls)
         for r in backends.registrations(p, cls):
             prims = [path.split(".")[-1] for path, n in r.primitives(ns)]
             # only the primitive handed to the combinator as first argument names the operation
@@ -192,7 +193,9 @@ def r2(p, rep):
                 while isinstance(a0, ast.Call) and a0.args and isinstance(a0.func, ast.Name):
                     a0 = a0.args[0]  # _associative_binary_to_nary(np.add) / _fixed_arity(np.exp, 1) / partial(f, ...)
                 ch = attr_chain(a0)
-                if ch and ch[0] in ns:
+                if ch and len(ch) == 1 and ch[0] in local_prims:
+                    first = sorted(local_prims[ch[0]])[0] if len(local_prims[ch[0]]) == 1 else None  # `getitem = xp.getitem`
+                elif ch and ch[0] in ns:
                     first = ch[-1]
                 elif isinstance(a0, ast.Lambda):
                     calls = [attr_chain(c.func) for c in ast.walk(a0.body) if isinstance(c, ast.Call)]
